@@ -74,7 +74,8 @@ CHECKS = {
         text="The complete decision table - every weak ordering of operation/create/drop time with each time possibly unknown, on every governing level (database, collection, partition), with every downstream probe answer and for every gated operation kind, plus the rejected-call-while-dropped path - is executed on the real ChannelWriter (tables seeded white-box) and the observed applied/skipped/failed outcome is compared with the statement's rule.",
         note="Quick limits the database level to 6 representative states for the two 3-level kinds; thorough enumerates the full product (about 1.6M cases). The histories part explores stateful create/drop/re-create histories with restarts as sequences, each once without and once with a whole-database name mapping (the decision is made on tables keyed by source names).",
         parts=[part("table", "core", "writer", "TestVerifC08Table", shards=(16, 16), budget=(200, 1500)),
-               part("histories", "core", "writer", "TestVerifC08Histories", shards=(16, 16), budget=(150, 1200))],
+               part("histories", "core", "writer", "TestVerifC08Histories", shards=(16, 16), budget=(150, 1200)),
+               part("names", "core", "writer", "TestVerifC08Names", shards=(4, 8), budget=(120, 600))],
     ),
     "C15": dict(
         level="model_checking", engine="seq",
